@@ -25,6 +25,7 @@ ASSUMPTIONS = ["'raises' means any exception here; the exception class is judged
                "msb0 only (lsb0 is C12)"]
 
 ANY = '<any>'
+MAX_LEN = 6000
 
 
 class _Self:
@@ -451,6 +452,8 @@ def run(case):
     nt_single = False
     labels = []
     for k, op in enumerate(case['steps']):
+        if len(m) > MAX_LEN:
+            break   # self-appends / repeats grow exponentially; the rest of such a sequence adds nothing
         r, objs = resolve(op, m)
         outs = model(m, op, r)
         res = attempt(call_impl, x, op, r, objs)
